@@ -3,6 +3,7 @@ package checks
 import (
 	"encoding/json"
 	"fmt"
+	"sync"
 	"time"
 
 	"github.com/high-moctane/mocrelay"
@@ -116,6 +117,76 @@ func C02(run *core.Run) {
 				if got != want[j+1] {
 					run.Violate(fmt.Sprintf("match3:%s want=%v got=%v", describeFilters([]abs.Filter{*rw.F}), want[j+1], got),
 						fmt.Sprintf("filter %s event %+v: Nostr!Matches = %v, Match = %v", rw.F.Key(), e, want[j+1], got), map[string]any{"filter": rw.F, "event": e})
+				}
+			}
+		}
+		// (a') one matcher shared by concurrent callers (the router's subscriptions and the allow /
+		// deny middlewares share one matcher between sessions): every answer must still be the table's
+		{
+			type shared struct {
+				f    *abs.Filter
+				m    mocrelay.EventMatcher
+				evs  []*mocrelay.Event
+				want []bool
+			}
+			var jobs []shared
+			add := func(rw row, evs []*mocrelay.Event) {
+				want := make([]bool, len(evs))
+				pos := 0
+				for _, j := range rw.M {
+					want[j-1] = true
+					pos++
+				}
+				if pos == 0 || pos == len(evs) || len(rw.F.Tags) == 0 {
+					return
+				}
+				jobs = append(jobs, shared{rw.F, mocrelay.NewReqFilterMatcher(conc.Filter(*rw.F)), evs, want})
+			}
+			var real3 []*mocrelay.Event
+			for _, e := range events3 {
+				real3 = append(real3, conc.Event(e, ""))
+			}
+			for i, rw := range rows3 {
+				if i%3 == int(run.Seed%3) || run.Thorough() {
+					add(rw, real3)
+				}
+			}
+			for i, rw := range rows {
+				if rw.F != nil && len(rw.F.Tags) >= 2 && (i%4 == int(run.Seed%4) || run.Thorough()) {
+					add(rw, real)
+				}
+			}
+			if len(jobs) > 60 && !run.Thorough() {
+				jobs = jobs[:60]
+			}
+			for _, jb := range jobs {
+				var wg sync.WaitGroup
+				var mu sync.Mutex
+				badJ := -1
+				for g := 0; g < 8; g++ {
+					wg.Add(1)
+					go func(g int) {
+						defer wg.Done()
+						n := len(jb.evs)
+						for rep := 0; rep < 12; rep++ {
+							for k := 0; k < n; k++ {
+								j := (k*7 + g*3 + rep) % n
+								if jb.m.Match(jb.evs[j]) != jb.want[j] {
+									mu.Lock()
+									badJ = j
+									mu.Unlock()
+									return
+								}
+							}
+						}
+					}(g)
+				}
+				wg.Wait()
+				run.Add("concurrent_match_calls", int64(8*12*len(jb.evs)))
+				if badJ >= 0 {
+					run.Violate("match-concurrent:"+describeFilters([]abs.Filter{*jb.f}),
+						fmt.Sprintf("matcher of filter %s shared by 8 goroutines: Match(event #%d) differs from Nostr!Matches = %v", jb.f.Key(), badJ, jb.want[badJ]),
+						map[string]any{"filter": jb.f, "event_index": badJ})
 				}
 			}
 		}
